@@ -26,6 +26,14 @@ Definition c13_shape : bool :=
   && forallb (fun sk => String.eqb (sk_name sk) "pa" || (Nat.eqb (List.length (ids_named sk ["Conn.Close"])) 1)) skeletons
   && forallb (fun sk => String.eqb (sk_name sk) "pa" || (Nat.eqb (List.length (mk_hs (marks_of sk))) 1)) skeletons.
 
+(* every package with a handshake has publishing sites, and none of them uses the connection after the store *)
+Definition c13_publish_last : bool :=
+  forallb (fun p => negb (match snd p with [] => true | _ => false end) && forallb (fun x => N.eqb (snd x) 0) (snd p)) publish_sites
+  && Nat.eqb (List.length publish_sites) 2.
+
+Lemma c13_publish_last_check : c13_publish_last = true.
+Proof. vm_cast_no_check (eq_refl true). Qed.
+
 Lemma c13_shape_check : c13_shape = true.
 Proof. vm_cast_no_check (eq_refl true). Qed.
 
